@@ -21,7 +21,7 @@
 (* evaluation, Part = "predict") lists what breaks with the code as found.    *)
 EXTENDS ApiAlgebra
 
-CONSTANTS Fix, Part, MaxLen, MaxLenVar, MaxVar, MaxQueue, Shared, AsyncOrder
+CONSTANTS Fix, Part, MaxLen, MaxLenVar, MaxVar, MaxQueue, MaxList, Shared, AsyncOrder
 
 ASSUME AsyncOrder \in AsyncOrders
 
@@ -199,6 +199,19 @@ HelperCall(fn, possible) ==
         /\ verdict' = [AllTrue EXCEPT !.helper = HelperLaw(fn, sc, ret)]
   /\ UNCHANGED <<m, held, phase>>
 
+(* the Sync helpers on every list of 1..MaxList members x (active before,     *)
+(* vetoing handler) per member (ApiAlgebra Part 3a); the law is judged on the *)
+(* activity the machine model leaves behind                                   *)
+MemberLists == UNION {[1..k -> ListMember] : k \in 1..MaxList}
+HelperListCall(fn, lst) ==
+  /\ Part = "machine"
+  /\ LET sc == [disposed |-> phase = "disposed", queued |-> phase \in {"inhandler", "midqueue"}]
+         ret == ListCode(Fix, fn, sc, lst)
+         after == ListAfter(fn = "AddSync", sc, lst)
+     IN /\ call' = [kind |-> "helperlist", fn |-> fn, sc |-> sc, lst |-> lst, ret |-> ret]
+        /\ verdict' = [AllTrue EXCEPT !.helper = ListLaw(fn, sc, after, ret)]
+  /\ UNCHANGED <<m, held, phase>>
+
 WaitCall(fn, chans, ctxDone) ==
   /\ Part = "machine"
   /\ LET all == \A i \in 1..Len(chans) : chans[i]
@@ -225,6 +238,7 @@ MachineNext ==
   \/ StartTx \/ QueueBehind \/ EndTx \/ Err \/ SetSchema \/ SetTagsTracers \/ Dispose
   \/ \E g \in Getters : Get(g) \/ MutateReturned(g)
   \/ \E fn \in HelperFns, p \in BOOLEAN : HelperCall(fn, p)
+  \/ \E fn \in ListFns, lst \in MemberLists : HelperListCall(fn, lst)
   \/ \E fn \in {"WaitForAll", "WaitForAny"}, ch \in SeqsUpTo(BOOLEAN, 4), cd \in BOOLEAN :
        WaitCall(fn, ch, cd)
   \/ \E cls \in ArgClasses : TotalCall(cls)
@@ -279,6 +293,9 @@ PredictHelpers ==
   {fn \in HelperFns : \E d \in BOOLEAN, q \in BOOLEAN, p \in BOOLEAN :
      LET sc == [disposed |-> d, queued |-> q, possible |-> p]
      IN ~HelperLaw(fn, sc, HelperCode(FALSE, fn, sc))}
+  \cup {fn \in ListFns : \E d \in BOOLEAN, q \in BOOLEAN, lst \in MemberLists :
+     LET sc == [disposed |-> d, queued |-> q]
+     IN ~d /\ ~ListLaw(fn, sc, ListAfter(fn = "AddSync", sc, lst), ListCode(FALSE, fn, sc, lst))}
 (* the scenarios in which the law tells the other order of the helper's      *)
 (* steps (subscribe AFTER the mutation) from the code's                       *)
 AsyncBreaks(order) ==
